@@ -9,7 +9,7 @@
     [ctx_wf C]: map keys agree with the id fields stored in the values (DB invariant). *)
 From stdpp Require Import gmap list numbers.
 From Drummer.Model Require Import DB Sched SchedRun.
-From Drummer.Proofs Require Import SchedProofs SchedExamples.
+From Drummer.Proofs Require Import SchedProofs SchedTotal SchedExamples.
 Local Open Scope N_scope.
 
 (** 1. A DELETE removes exactly one replica, a member of the view classified failed (not
@@ -100,6 +100,13 @@ Theorem C11_sched_kills_filter : ∀ P C b,
   allowed P C (OBatch b) = true → filter (λ q, is_kill q = true) b = kill_req <$> c_kill C.
 Proof. exact sched_kills_filter. Qed.
 Print Assumptions C11_sched_kills_filter.
+
+(** The set of allowed outcomes is never empty: in every well-formed context the canonical
+    outcome [canon] (first candidates in map order, new id for shard s = idf s) is allowed,
+    so "every allowed batch" is not a vacuous quantification in any context. *)
+Theorem C02_allowed_set_nonempty : ∀ P C idf, ctx_wf C → allowed P C (canon P C idf) = true.
+Proof. exact allowed_canon. Qed.
+Print Assumptions C02_allowed_set_nonempty.
 
 (** Non-vacuity. *)
 Example C02_nonvacuous_add :
